@@ -405,6 +405,7 @@ class Frame:
 
     # ------------------------------------------------------------------ loops
     _iter_guard = TRUE
+    _plain_iter = False       # True while binding an iterable whose POSITIONS matter (enumerate, misaligned zip): no guarded normal form then
 
     def iter_binding(self, it_node):
         """-> (key, loop variable, element term) for a for-loop / comprehension iterable; ``self._iter_guard`` collects the condition
@@ -420,7 +421,11 @@ class Frame:
                 lv = ('lv', key, depth)
                 return key, lv, lv
             if f == 'enumerate':
-                key, lv, elem = self.iter_binding(it_node.args[0])
+                saved_plain, self._plain_iter = self._plain_iter, True      # enumerate counts the elements actually visited
+                try:
+                    key, lv, elem = self.iter_binding(it_node.args[0])
+                finally:
+                    self._plain_iter = saved_plain
                 start = self.ex(it_node.args[1]) if len(it_node.args) > 1 else C(0)
                 pos = self.position(key, lv)
                 return key, lv, ('tuple', (T.add(pos, start) if start != C(0) else pos, elem))
@@ -433,16 +438,31 @@ class Frame:
                     p_ = fn_(arg)
                     parts.append(p_)
                     guards.append((p_[1], self._iter_guard))
+                # elements are paired by position: a skipping (guarded) normal form is only sound when every operand skips the same positions
+                saved_plain = self._plain_iter
+                operands = []                                     # (binder, argument): evaluated once, bound twice if the guards disagree
                 for x in it_node.args:
                     if isinstance(x, ast.Starred):
                         sv = self.ex(x.value)          # zip(*(A, B)) == zip(A, B)
                         if sv[0] in ('tuple', 'list'):
-                            for e in sv[1]:
-                                part(lambda t: self.iter_of_term(t, depth), e)
-                            continue
-                        part(lambda t: self.iter_of_term(t, depth), ('starred', sv))
+                            operands.extend((lambda t: self.iter_of_term(t, depth), e) for e in sv[1])
+                        else:
+                            operands.append((lambda t: self.iter_of_term(t, depth), ('starred', sv)))
+                    elif isinstance(x, ast.Call) and isinstance(x.func, ast.Name) and x.func.id in ('range', 'enumerate', 'zip', 'product') and x.func.id not in self.env:
+                        operands.append((self.iter_binding, x))
                     else:
-                        part(self.iter_binding, x)
+                        operands.append((lambda t: self.iter_of_term(t, depth), self.ex(x)))
+                for fn_, arg in operands:
+                    part(fn_, arg)
+                if len({T.subst(gd, lambda y, l=l: ('lv', ('position',), depth) if y == l else None) for (l, gd) in guards}) > 1:
+                    parts, guards = [], []
+                    self._plain_iter = True
+                    for fn_, arg in operands:
+                        if fn_ != self.iter_binding:
+                            part(fn_, arg)
+                        else:
+                            part(fn_, arg)
+                self._plain_iter = saved_plain
                 keys = {p[0] for p in parts}
                 key = parts[0][0] if len(keys) == 1 else ('zip', tuple(p[0] for p in parts))
                 lv = ('lv', key, depth)
@@ -466,9 +486,27 @@ class Frame:
         if it[0] == 'nd':
             it = it[1]
         if it[0] == 'records':
+            tb = it[1]
+            sel = {v[2][1] for c, v in tb[1] if v[0] == 'idx' and isinstance(v[2], tuple) and v[2] and v[2][0] == 'rowsel'} if tb[0] == 'table' and tb[1] else set()
+            if not self._plain_iter and len(sel) == 1 and all(v[0] == 'idx' and v[2] == ('rowsel', next(iter(sel))) for c, v in tb[1]) and \
+                    (T._masklike(next(iter(sel))) or T.is_boolarr(next(iter(sel)))):
+                # the rows of df[mask] in order == the rows of df, skipping those whose flag is not set
+                m = next(iter(sel))
+                base = ('table', tuple((c, v[1]) for c, v in tb[1]), T.length(m))
+                key = ('range', C(0), T.length(m), C(1))
+                lv = ('lv', key, depth)
+                self._iter_guard = T.and_([self._iter_guard, T.index(m, lv)])
+                return key, lv, ('row', base, lv)
             key = ('range', C(0), T.length(it[1]), C(1))      # rows are visited by position
             lv = ('lv', key, depth)
             return key, lv, ('row', it[1], lv)
+        if not self._plain_iter and it[0] == 'call' and it[1] == 'flatnonzero' and len(it[2]) == 1 and (T._masklike(T.strip_nd(it[2][0])) or T.is_boolarr(it[2][0])):
+            # the positions where a mask is set, in order == all positions, skipping those where it is not
+            m = T.strip_nd(it[2][0])
+            key = ('range', C(0), T.length(m), C(1))
+            lv = ('lv', key, depth)
+            self._iter_guard = T.and_([self._iter_guard, T.index(m, lv)])
+            return key, lv, lv
         if it[0] == 'items':
             key = ('items', it[1])
             lv = ('lv', key, depth)
@@ -477,7 +515,7 @@ class Frame:
             key = ('keysof', it[2])
             lv = ('lv', key, depth)
             return key, lv, ('keyat', it[2], lv)
-        if it[0] == 'idx' and it[2][0] in ('cmp0', 'band', 'bor', 'binv'):
+        if not self._plain_iter and it[0] == 'idx' and it[2][0] in ('cmp0', 'band', 'bor', 'binv'):
             # iterating the selected elements X[mask] == iterating all positions of X under the guard mask[i]
             key = ('range', C(0), T.length(it[1]), C(1))
             lv = ('lv', key, depth)
@@ -992,7 +1030,7 @@ class Frame:
                 b = ('tuple', b[1])
         if op in ('Is', 'IsNot', 'Eq', 'NotEq') and (a == NONE or b == NONE):
             other = b if a == NONE else a
-            if (other[0] == 'param' and self.ctx.kinds.get(other[1]) not in (None, 'none')) or other[0] in ('atom', 'col', 'obj', 'nd', 'shaped', 'table', 'dict', 'list', 'tuple', 'arr', 'map', 'funcref'):
+            if (other[0] == 'param' and self.ctx.kinds.get(other[1]) not in (None, 'none')) or other[0] in ('atom', 'col', 'obj', 'nd', 'shaped', 'table', 'dict', 'list', 'tuple', 'arr', 'map', 'funcref', 'cmp0', 'band', 'bor', 'binv', 'lin', 'mul', 'div', 'concatmap', 'filtermap'):
                 return C(op in ('IsNot', 'NotEq'))      # typed scenario value: never None
         if op in ('Eq', 'NotEq') and a[0] == b[0] == 'tuple' and len(a[1]) == len(b[1]) and all(T.isconst(x) for x in a[1] + b[1]):
             r = a == b
@@ -1093,6 +1131,8 @@ class Frame:
         return self.getitem(b, k, n)
 
     def getitem(self, b, k, n=None):
+        if b[0] == 'records' and (T.is_int(k) or k[0] == 'lv'):
+            return ('row', b[1], k)                     # df.to_dict('records')[i] is row i
         if b[0] == 'row':
             if T.isconst(k):
                 tb = b[1]
